@@ -206,6 +206,9 @@ class Attribute(_BaseAttribute):
     def __getitem__(self, key):
         if key in self._data:
             return self._data[key]
+        if self.elemsize>1:
+            # a fresh vector of `elemsize` components: the shared default object is never handed out
+            return Vec(np.full(self.elemsize, self.default_value, dtype=self.type.dtype))
         return self.default_value
 
     def __setitem__(self, key, value):
